@@ -188,475 +188,4 @@ theorem other_tasks {cfg : Cfg} {s s' : State} {l : Label} (h : step cfg s l = s
       rw [e'] at this; simp at this
     · left; exact upd_other _ _ _ e
 
-/-! ### the loop invariant -/
-
-def Obliged (th : Th) : Prop := (∃ u, th = .exec u) ∨ th = .post ∨ (∃ u, th = .top (some u))
-
-structure LInv (cfg : Cfg) (s0 : State) (s : LState) : Prop where
-  reach : Reach cfg s0 s.p
-  /-- a running task is held by a thread that is executing it or is about to -/
-  holder : ∀ t k, s.p.tasks t = some ⟨k, .running⟩ → ∃ i, s.th i = .exec t ∨ s.th i = .top (some t)
-  /-- a pending task is in the `tasks_to_add[]` of a thread that is adding its tasks -/
-  owner : ∀ t k, s.p.tasks t = some ⟨k, .pending⟩ → ∃ i, s.th i = .post ∧ t ∈ s.mine i
-  /-- for a queued flush task some thread will poll the shared queue again -/
-  oblig : ∀ t c, s.p.tasks t = some ⟨.flush c, .queued⟩ → ∃ i, Obliged (s.th i)
-  exitFlag : ∀ i, s.th i = .exited → s.p.run = false
-
-theorem run_stays_false {cfg : Cfg} {s s' : State} (l : Label) (h : step cfg s l = some s') (hr : s.run = false) :
-    s'.run = false := by
-  rcases (step_done_run l h).2 with e | ⟨e, _, _⟩
-  · rw [e]; exact hr
-  · exact e
-
-theorem lockHeld_running {cfg : Cfg} {s : State} {l : Lock} (h : lockHeld cfg s l = true) :
-    ∃ u k, s.tasks u = some ⟨k, .running⟩ := by
-  simp only [lockHeld, List.any_eq_true] at h
-  obtain ⟨u, _, hu⟩ := h
-  split at hu
-  · rename_i k hk; exact ⟨u, k, hk⟩
-  · cases hu
-
-theorem poll_cases {cfg : Cfg} {p p' : State} {got : Option Nat} (h : poll cfg p got = some p') :
-    (got = none ∧ p' = p ∧ flushAvailable cfg p = false) ∨ (∃ t, got = some t ∧ step cfg p (.acquire t) = some p') := by
-  cases got with
-  | none =>
-    simp only [poll] at h
-    split_ifs at h with hf
-    injection h with h
-    exact Or.inl ⟨rfl, h.symm, by simpa using hf⟩
-  | some t => exact Or.inr ⟨t, rfl, h⟩
-
-/-- a poll by thread i that is in a state `old`; `new got` is its next state -/
-theorem linv_poll {cfg : Cfg} {s0 : State} {s : LState} {i : Nat} {got : Option Nat} {p' : State} {nxt : Option Nat → Th}
-    (hN : weight cfg (fun _ => 1) s0 = cfg.N) (hi : LInv cfg s0 s) (hp : poll cfg s.p got = some p')
-    (hold : (∀ u, s.th i ≠ .exec u) ∧ (∀ u, s.th i ≠ .top (some u)))
-    (hmine : s.th i = .post → s.mine i = [])
-    (hnx : ∀ t, nxt (some t) = .exec t ∨ nxt (some t) = .top (some t))
-    (hnn : nxt none ≠ .exited) :
-    LInv cfg s0 { s with p := p', th := upd s.th i (nxt got) } := by
-  have hother : ∀ j, j ≠ i → upd s.th i (nxt got) j = s.th j := fun j hj => upd_other _ _ _ hj
-  rcases poll_cases hp with ⟨rfl, rfl, hfa⟩ | ⟨t, rfl, hacq⟩
-  · -- NO_TASK
-    refine ⟨hi.reach, ?_, ?_, ?_, ?_⟩
-    all_goals dsimp only
-    · intro t k ht
-      obtain ⟨j, hj⟩ := hi.holder t k ht
-      have : j ≠ i := by
-        intro e; subst e
-        rcases hj with hj | hj
-        · exact hold.1 t hj
-        · exact hold.2 t hj
-      exact ⟨j, by rw [hother j this]; exact hj⟩
-    · intro t k ht
-      obtain ⟨j, hj1, hj2⟩ := hi.owner t k ht
-      have : j ≠ i := by
-        intro e; subst e
-        rw [hmine hj1] at hj2; cases hj2
-      exact ⟨j, by rw [hother j this]; exact hj1, hj2⟩
-    · intro t c ht
-      -- the lock of the flush task is held by a running task; its holder will poll again
-      have hlk : lockHeld cfg s.p (.block c) = true := by
-        have hcap := (hi.reach.inv.tk t _ ht).1
-        simp only [flushAvailable] at hfa
-        have := List.any_eq_false.mp hfa t (List.mem_range.mpr hcap)
-        simp only [ht] at this
-        simpa using this
-      obtain ⟨u, k, hu⟩ := lockHeld_running hlk
-      obtain ⟨j, hj⟩ := hi.holder u k hu
-      have : j ≠ i := by
-        intro e; subst e
-        rcases hj with hj | hj
-        · exact hold.1 u hj
-        · exact hold.2 u hj
-      refine ⟨j, ?_⟩
-      rw [hother j this]
-      rcases hj with hj | hj
-      · exact Or.inl ⟨u, hj⟩
-      · exact Or.inr (Or.inr ⟨u, hj⟩)
-    · intro j hj
-      by_cases e : j = i
-      · subst e; simp only [upd_same] at hj; exact absurd hj hnn
-      · rw [hother j e] at hj; exact hi.exitFlag j hj
-  · -- a task was obtained
-    obtain ⟨k, hk, _, rfl⟩ := step_acquire hacq
-    have hreach := reach_step (.acquire t) hN hi.reach hacq
-    refine ⟨hreach, ?_, ?_, ?_, ?_⟩
-    all_goals dsimp only
-    · intro u k' hu
-      by_cases e : u = t
-      · subst e
-        refine ⟨i, ?_⟩
-        simp only [upd_same]
-        exact hnx u
-      · simp only [upd_other _ _ _ e] at hu
-        obtain ⟨j, hj⟩ := hi.holder u k' hu
-        have : j ≠ i := by
-          intro e; subst e
-          rcases hj with hj | hj
-          · exact hold.1 u hj
-          · exact hold.2 u hj
-        exact ⟨j, by rw [hother j this]; exact hj⟩
-    · intro u k' hu
-      have e : u ≠ t := by
-        intro e; subst e; simp only [upd_same] at hu; injection hu with hu; injection hu with _ hu; cases hu
-      simp only [upd_other _ _ _ e] at hu
-      obtain ⟨j, hj1, hj2⟩ := hi.owner u k' hu
-      have : j ≠ i := by
-        intro e; subst e
-        rw [hmine hj1] at hj2; cases hj2
-      exact ⟨j, by rw [hother j this]; exact hj1, hj2⟩
-    · intro u c hu
-      have e : u ≠ t := by
-        intro e; subst e; simp only [upd_same] at hu; injection hu with hu; injection hu with _ hu; cases hu
-      simp only [upd_other _ _ _ e] at hu
-      obtain ⟨j, hj⟩ := hi.oblig u c hu
-      by_cases ej : j = i
-      · subst ej
-        refine ⟨j, ?_⟩
-        simp only [upd_same]
-        rcases hnx t with h1 | h1
-        · exact Or.inl ⟨t, h1⟩
-        · exact Or.inr (Or.inr ⟨t, h1⟩)
-      · exact ⟨j, by rw [hother j ej]; exact hj⟩
-    · intro j hj
-      by_cases e : j = i
-      · subst e; simp only [upd_same] at hj
-        rcases hnx t with h1 | h1 <;> (rw [h1] at hj; cases hj)
-      · rw [hother j e] at hj; exact hi.exitFlag j hj
-
-/-- protocol steps that leave the thread states alone and add at most queued, non-flush tasks -/
-theorem linv_other {cfg : Cfg} {s0 : State} {s : LState} {l : Label} {p' : State}
-    (hN : weight cfg (fun _ => 1) s0 = cfg.N) (hi : LInv cfg s0 s) (h : step cfg s.p l = some p')
-    (hl : (∃ a b, l = .launchBatch a b) ∨ (∃ a, l = .launchCont a) ∨ (∃ a b, l = .premature a b)) :
-    LInv cfg s0 { s with p := p' } := by
-  have hd := other_tasks h hl
-  refine ⟨reach_step l hN hi.reach h, ?_, ?_, ?_, ?_⟩
-  all_goals dsimp only
-  · intro t k ht
-    rcases hd t with e | ⟨_, k', e, _⟩
-    · rw [e] at ht; exact hi.holder t k ht
-    · rw [e] at ht; injection ht with ht; injection ht with _ ht; cases ht
-  · intro t k ht
-    rcases hd t with e | ⟨_, k', e, _⟩
-    · rw [e] at ht; exact hi.owner t k ht
-    · rw [e] at ht; injection ht with ht; injection ht with _ ht; cases ht
-  · intro t c ht
-    rcases hd t with e | ⟨_, k', e, hnf⟩
-    · rw [e] at ht; exact hi.oblig t c ht
-    · rw [e] at ht; injection ht with ht; injection ht with ht _; exact absurd ht (hnf c)
-  · intro j hj; exact run_stays_false l h (hi.exitFlag j hj)
-
-theorem mem_erase_ne {a b : Nat} {l : List Nat} (h : a ∈ l) (hne : a ≠ b) : a ∈ l.erase b :=
-  (List.mem_erase_of_ne hne).mpr h
-
-theorem lstep_inv {cfg : Cfg} {s0 : State} {s s' : LState} (l : LLabel) (hN : weight cfg (fun _ => 1) s0 = cfg.N)
-    (hi : LInv cfg s0 s) (h : lstep cfg s l = some s') : LInv cfg s0 s' := by
-  cases l with
-  | main l =>
-    simp only [lstep] at h
-    split at h
-    · rename_i a b
-      split at h
-      · rename_i p' hp; injection h with h; subst h
-        exact linv_other hN hi hp (Or.inl ⟨a, b, rfl⟩)
-      · cases h
-    · rename_i a
-      split at h
-      · rename_i p' hp; injection h with h; subst h
-        exact linv_other hN hi hp (Or.inr (Or.inl ⟨a, rfl⟩))
-      · cases h
-    · cases h
-  | startPoll i got =>
-    simp only [lstep] at h
-    split at h
-    · rename_i hth
-      split at h
-      · rename_i p' hp; injection h with h; subst h
-        exact linv_poll (nxt := fun g => .top g) hN hi hp ⟨(by intro u e; rw [hth] at e; cases e), (by intro u e; rw [hth] at e; cases e)⟩
-          (by intro e; rw [hth] at e; cases e) (fun t => Or.inr rfl) (by intro e; cases e)
-      · cases h
-    · cases h
-  | topExit i =>
-    simp only [lstep] at h
-    split at h
-    · rename_i hth
-      split_ifs at h with hr
-      injection h with h; subst h
-      have hother : ∀ j, j ≠ i → upd s.th i .exited j = s.th j := fun j hj => upd_other _ _ _ hj
-      have hni : ∀ j, (∃ u, s.th j = .exec u) ∨ s.th j = .post ∨ (∃ u, s.th j = .top (some u)) → j ≠ i := by
-        intro j hj e; subst e; rw [hth] at hj
-        rcases hj with ⟨u, hj⟩ | hj | ⟨u, hj⟩ <;> cases hj
-      refine ⟨hi.reach, ?_, ?_, ?_, ?_⟩
-      all_goals dsimp only
-      · intro t k ht
-        obtain ⟨j, hj⟩ := hi.holder t k ht
-        have hne := hni j (by rcases hj with hj | hj; exact Or.inl ⟨t, hj⟩; exact Or.inr (Or.inr ⟨t, hj⟩))
-        exact ⟨j, by rw [hother j hne]; exact hj⟩
-      · intro t k ht
-        obtain ⟨j, hj1, hj2⟩ := hi.owner t k ht
-        have hne := hni j (Or.inr (Or.inl hj1))
-        exact ⟨j, by rw [hother j hne]; exact hj1, hj2⟩
-      · intro t c ht
-        obtain ⟨j, hj⟩ := hi.oblig t c ht
-        have hne := hni j hj
-        exact ⟨j, by rw [hother j hne]; exact hj⟩
-      · intro j hj
-        by_cases e : j = i
-        · simpa using hr
-        · rw [hother j e] at hj; exact hi.exitFlag j hj
-    · cases h
-  | topGo i =>
-    simp only [lstep] at h
-    split at h
-    · rename_i t hth
-      injection h with h; subst h
-      have hother : ∀ j, j ≠ i → upd s.th i (.exec t) j = s.th j := fun j hj => upd_other _ _ _ hj
-      refine ⟨hi.reach, ?_, ?_, ?_, ?_⟩
-      all_goals dsimp only
-      · intro u k hu
-        obtain ⟨j, hj⟩ := hi.holder u k hu
-        by_cases e : j = i
-        · subst e
-          rw [hth] at hj
-          rcases hj with hj | hj
-          · cases hj
-          · injection hj with hj; injection hj with hj; subst hj
-            exact ⟨j, Or.inl (upd_same _ _ _)⟩
-        · exact ⟨j, by rw [hother j e]; exact hj⟩
-      · intro u k hu
-        obtain ⟨j, hj1, hj2⟩ := hi.owner u k hu
-        have e : j ≠ i := by intro e; subst e; rw [hth] at hj1; cases hj1
-        exact ⟨j, by rw [hother j e]; exact hj1, hj2⟩
-      · intro u c hu
-        obtain ⟨j, hj⟩ := hi.oblig u c hu
-        by_cases e : j = i
-        · subst e; exact ⟨j, Or.inl ⟨t, upd_same _ _ _⟩⟩
-        · exact ⟨j, by rw [hother j e]; exact hj⟩
-      · intro j hj
-        by_cases e : j = i
-        · subst e; simp only [upd_same] at hj; cases hj
-        · rw [hother j e] at hj; exact hi.exitFlag j hj
-    · cases h
-  | topPoll i got =>
-    simp only [lstep] at h
-    split at h
-    · rename_i hth
-      split_ifs at h with hr
-      split at h
-      · rename_i p' hp; injection h with h; subst h
-        exact linv_poll (nxt := fun g => match g with | some t => .exec t | none => .check) hN hi hp
-          ⟨(by intro u e; rw [hth] at e; cases e), (by intro u e; rw [hth] at e; cases e)⟩
-          (by intro e; rw [hth] at e; cases e) (fun t => Or.inl rfl) (by intro e; cases e)
-      · cases h
-    · cases h
-  | prem i g t' =>
-    simp only [lstep] at h
-    split at h
-    · split_ifs at h with hr
-      split at h
-      · rename_i p' hp; injection h with h; subst h
-        exact linv_other hN hi hp (Or.inr (Or.inr ⟨g, t', rfl⟩))
-      · cases h
-    · cases h
-  | work i l =>
-    simp only [lstep] at h
-    split at h
-    · rename_i t t0 fin hth hw
-      by_cases htt : t = t0
-      swap
-      · rw [if_neg htt] at h; cases h
-      rw [if_pos htt] at h
-      subst htt
-      split at h
-      · rename_i p' hp
-        injection h with h; subst h
-        obtain ⟨⟨k0, hk0⟩, hfin, hnfin, hdelta⟩ := commit_tasks hp hw
-        have hreach := reach_step l hN hi.reach hp
-        have hthi : ∀ j, j ≠ i → (if fin = true then upd s.th i Th.post else s.th) j = s.th j := by
-          intro j hj; split_ifs
-          · exact upd_other _ _ _ hj
-          · rfl
-        have hthii : (if fin = true then upd s.th i Th.post else s.th) i = if fin = true then Th.post else Th.exec t := by
-          split_ifs
-          · exact upd_same _ _ _
-          · exact hth
-        refine ⟨hreach, ?_, ?_, ?_, ?_⟩
-        all_goals dsimp only
-        · intro u k hu
-          by_cases e : u = t
-          · subst e
-            cases fin with
-            | true => rw [hfin rfl] at hu; cases hu
-            | false => exact ⟨i, Or.inl (by simpa using hth)⟩
-          · cases hdelta u e with
-            | same hs =>
-              rw [hs] at hu
-              obtain ⟨j, hj⟩ := hi.holder u k hu
-              have hne : j ≠ i := by
-                intro e'; subst e'; rw [hth] at hj
-                rcases hj with hj | hj
-                · injection hj with hj; exact e hj.symm
-                · cases hj
-              exact ⟨j, by rw [hthi j hne]; exact hj⟩
-            | new h0 k' st h1 hst hp' =>
-              rw [h1] at hu; injection hu with hu; injection hu with _ hu; exact absurd hu hst
-        · intro u k hu
-          have hucap := (hreach.inv.tk u _ hu).1
-          by_cases hold : isPending s.p u = true
-          · -- was pending before: same owner (not thread i, which was executing)
-            have : ∃ k', s.p.tasks u = some ⟨k', .pending⟩ := by
-              simp only [isPending] at hold
-              split at hold
-              · rename_i k' hk'; exact ⟨k', hk'⟩
-              · cases hold
-            obtain ⟨k', hk'⟩ := this
-            obtain ⟨j, hj1, hj2⟩ := hi.owner u k' hk'
-            have hne : j ≠ i := by intro e'; subst e'; rw [hth] at hj1; cases hj1
-            refine ⟨j, by rw [hthi j hne]; exact hj1, ?_⟩
-            rw [upd_other _ _ _ hne]; exact hj2
-          · -- newly pending: created by this commit, which therefore ends the task
-            have hne : u ≠ t := by
-              intro e; subst e
-              cases fin with
-              | true => rw [hfin rfl] at hu; cases hu
-              | false => obtain ⟨k2, hk2⟩ := hnfin rfl; rw [hk2] at hu; injection hu with hu; injection hu with _ hu; cases hu
-            have hfinT : fin = true := by
-              cases hdelta u hne with
-              | same hs =>
-                exfalso; apply hold
-                simp only [isPending, ← hs, hu]
-              | new h0 k' st h1 hst hp' =>
-                rw [h1] at hu; injection hu with hu; injection hu with _ hu
-                exact hp' hu
-            refine ⟨i, by rw [hthii, hfinT]; rfl, ?_⟩
-            simp only [upd_same]
-            apply List.mem_append_right
-            rw [List.mem_filter]
-            refine ⟨List.mem_range.mpr hucap, ?_⟩
-            have hnow : isPending p' u = true := by simp [isPending, hu]
-            simp only [hnow, Bool.true_and, Bool.not_eq_true']
-            simpa using hold
-        · intro u c hu
-          -- the committing thread itself is obliged (it executes, or adds its tasks and polls)
-          refine ⟨i, ?_⟩
-          rw [hthii]
-          cases fin with
-          | true => exact Or.inr (Or.inl rfl)
-          | false => exact Or.inl ⟨t, rfl⟩
-        · intro j hj
-          have hne : j ≠ i := by
-            intro e; subst e; rw [hthii] at hj
-            split_ifs at hj <;> cases hj
-          rw [hthi j hne] at hj
-          exact run_stays_false l hp (hi.exitFlag j hj)
-      · cases h
-    · cases h
-  | enq i t =>
-    simp only [lstep] at h
-    split at h
-    · rename_i hth
-      split_ifs at h with hm
-      split at h
-      · rename_i p' hp
-        injection h with h; subst h
-        obtain ⟨k, hk, rfl⟩ := step_enqueue hp
-        have hreach := reach_step (.enqueue t) hN hi.reach hp
-        refine ⟨hreach, ?_, ?_, ?_, ?_⟩
-        all_goals dsimp only
-        · intro u k' hu
-          have e : u ≠ t := by
-            intro e; subst e; simp only [upd_same] at hu; injection hu with hu; injection hu with _ hu; cases hu
-          simp only [upd_other _ _ _ e] at hu
-          exact hi.holder u k' hu
-        · intro u k' hu
-          have e : u ≠ t := by
-            intro e; subst e; simp only [upd_same] at hu; injection hu with hu; injection hu with _ hu; cases hu
-          simp only [upd_other _ _ _ e] at hu
-          obtain ⟨j, hj1, hj2⟩ := hi.owner u k' hu
-          refine ⟨j, hj1, ?_⟩
-          by_cases ej : j = i
-          · subst ej; simp only [upd_same]; exact mem_erase_ne hj2 e
-          · simp only [upd_other _ _ _ ej]; exact hj2
-        · intro u c hu
-          by_cases e : u = t
-          · exact ⟨i, Or.inr (Or.inl hth)⟩
-          · simp only [upd_other _ _ _ e] at hu
-            exact hi.oblig u c hu
-        · intro j hj; exact hi.exitFlag j hj
-      · cases h
-    · cases h
-  | innerPoll i got =>
-    simp only [lstep] at h
-    split at h
-    · rename_i hth
-      split_ifs at h with hm
-      split at h
-      · rename_i p' hp; injection h with h; subst h
-        exact linv_poll (nxt := fun g => match g with | some t => .exec t | none => .check) hN hi hp
-          ⟨(by intro u e; rw [hth] at e; cases e), (by intro u e; rw [hth] at e; cases e)⟩
-          (by intro _; simpa using hm) (fun t => Or.inl rfl) (by intro e; cases e)
-      · cases h
-    · cases h
-  | checkYes i =>
-    simp only [lstep] at h
-    split at h
-    · rename_i hth
-      split at h
-      · rename_i p' hp; injection h with h; subst h
-        obtain ⟨_, _, rfl⟩ := step_checkTermination hp
-        have hreach := reach_step .checkTermination hN hi.reach hp
-        have hother : ∀ j, j ≠ i → upd s.th i (.top none) j = s.th j := fun j hj => upd_other _ _ _ hj
-        have hni : ∀ j, Obliged (s.th j) → j ≠ i := by
-          intro j hj e; subst e; rw [hth] at hj
-          rcases hj with ⟨u, hj⟩ | hj | ⟨u, hj⟩ <;> cases hj
-        refine ⟨hreach, ?_, ?_, ?_, ?_⟩
-        all_goals dsimp only
-        · intro t k ht
-          obtain ⟨j, hj⟩ := hi.holder t k ht
-          have hne := hni j (by rcases hj with hj | hj; exact Or.inl ⟨t, hj⟩; exact Or.inr (Or.inr ⟨t, hj⟩))
-          exact ⟨j, by rw [hother j hne]; exact hj⟩
-        · intro t k ht
-          obtain ⟨j, hj1, hj2⟩ := hi.owner t k ht
-          have hne := hni j (Or.inr (Or.inl hj1))
-          exact ⟨j, by rw [hother j hne]; exact hj1, hj2⟩
-        · intro t c ht
-          obtain ⟨j, hj⟩ := hi.oblig t c ht
-          exact ⟨j, by rw [hother j (hni j hj)]; exact hj⟩
-        · intro j _; rfl
-      · cases h
-    · cases h
-  | checkNo i got =>
-    simp only [lstep] at h
-    split at h
-    · rename_i hth
-      split_ifs at h with hc
-      split at h
-      · rename_i p' hp; injection h with h; subst h
-        exact linv_poll (nxt := fun g => .top g) hN hi hp
-          ⟨(by intro u e; rw [hth] at e; cases e), (by intro u e; rw [hth] at e; cases e)⟩
-          (by intro e; rw [hth] at e; cases e) (fun t => Or.inr rfl) (by intro e; cases e)
-      · cases h
-    · cases h
-
-theorem lrun_inv {cfg : Cfg} {s0 : State} (hN : weight cfg (fun _ => 1) s0 = cfg.N) :
-    ∀ (ls : List LLabel) (s s' : LState), LInv cfg s0 s → lrun cfg s ls = some s' → LInv cfg s0 s' := by
-  intro ls
-  induction ls with
-  | nil => intro s s' hi h; simp only [lrun] at h; injection h with h; subst h; exact hi
-  | cons l ls ih =>
-    intro s s' hi h
-    simp only [lrun] at h
-    split at h
-    · cases h
-    · rename_i s1 hs1
-      exact ih s1 s' (lstep_inv l hN hi hs1) h
-
-theorem linit_inv (cfg : Cfg) (srcIds : Nat → List Nat) (contIds : List Nat) :
-    LInv cfg (init srcIds contIds) (linit srcIds contIds) := by
-  refine ⟨reach_init cfg srcIds contIds, ?_, ?_, ?_, ?_⟩
-  · intro t k h; simp [linit, init] at h
-  · intro t k h; simp [linit, init] at h
-  · intro t c h; simp [linit, init] at h
-  · intro i h; simp [linit] at h
-
 end CMacVerif.Photon
